@@ -567,6 +567,9 @@ def adaptive_atoms():
         "expcone": lambda y, x: rsome.expcone(x[0] + 5, y[0], 1.0), "rsocone": lambda y, x: rsome.rsocone(y, x[0] + 3, 1.0),
         "kldiv": lambda y, x: rsome.kldiv(y + 3, np.array([0.5, 0.5]), 0.5),
         "abs-of-sum-with-static": lambda y, x: abs(y + x) <= 1, "abs-of-slice": lambda y, x: abs(y[0]) <= 1,
+        "abs-of-reversed-slice": lambda y, x: abs(y[::-1]) <= 1, "norm-of-permuted-slice": lambda y, x: rsome.norm(y[[1, 0]], 2) <= 1,
+        "square-of-last-entry-slice": lambda y, x: rsome.square(y[-1:]) <= 1, "exp-of-reversed-slice-plus-static": lambda y, x: rsome.exp(y[::-1] + x) <= 3,
+        "abs-of-boolean-mask-slice": lambda y, x: abs(y[np.array([False, True])]) <= 1,
         "maxof-in-plain-constraint": lambda y, x: rsome.maxof(y[0], x[0]) <= 1,
         # the adaptive block hidden behind a static first block of a concatenation / a multi-argument front end
         "sumsqr(static, adaptive)": lambda y, x: rsome.sumsqr(x, y) <= 1,
